@@ -39,6 +39,8 @@ THEOREMS = [
     "IrVerif.Scope.C03_roundtrip_decorated",
     "IrVerif.Scope.C03_pure_decorated",
     "IrVerif.Scope.C03_pure_ext",
+    "IrVerif.Scope.C03_pure_sites",
+    "IrVerif.Scope.C03_pure_frame",
 ]
 ASSUMPTIONS = [
     "value-info content and tensor payloads are opaque tokens in the model; non-graph node attributes are compared by "
@@ -61,6 +63,13 @@ ASSUMPTIONS = [
     "determinism / model comparison, and counted as serializable=graph output not defined in its graph",
     "C03_pure: the model's only effect is the tensor-name write; that the real to_proto mutates nothing else "
     "rests on the deep-snapshot oracle, not on the theorem",
+    "C03_pure_sites / C03_pure_frame (Model/ScopeEff.lean): to_proto as a log of generic attribute writes on IR "
+    "objects; writeSites = the (object kind, attribute) pairs at which serde.py's serialize_* functions assign. The "
+    "tie to the code is an AST scan of the IMPORTED onnx_ir.serde on every run (call-graph closure from the "
+    "serialize* / to_proto entry points; assignments, augmented assignments, del, setattr and calls of mutating "
+    "container methods on objects that are neither protobuf messages nor containers created in the function): a "
+    "site the model does not list is a correspondence disagreement. Effects through calls into other modules "
+    "(_core accessors that cache, tensor.tobytes()) are invisible to the scan and rest on the deep-snapshot oracle",
     "the oracle's gate (serializable_reason) also admits a nested graph that shadows a name of an enclosing "
     "graph when every reference still resolves innermost-first to the referenced value; the hypothesis of "
     "C03_roundtrip (names unique per scope chain) excludes shadowing, C03_roundtrip_reloadable (hypothesis: "
@@ -840,6 +849,8 @@ def diff_ext(part, out: dict, case, model, p1, err, m2, wf=False) -> None:
         part.disagree(f"extended model: serialized {'model' if wf else 'main graph'} differs at {d}", case, out["p"], real_p)
         return
     part.count("ext_proto_agrees")
+    if not wf:
+        _diff_effects(part, out, case, model)
     if any(len(q[1]) for q in (real_p["p"] if wf else real_p)["quant"]):
         part.count("ext_with_quant_annotation")
     if out.get("ser2_ok") is not True or out.get("p2") != out["p"]:
@@ -861,6 +872,75 @@ def diff_ext(part, out: dict, case, model, p1, err, m2, wf=False) -> None:
         part.disagree(f"extended model: deserializeE(serializeE w) differs at {d}", case, mod2, real2)
         return
     part.count("ext_reload_agrees")
+
+
+def _diff_effects(part, out: dict, case, model) -> None:
+    """the effect log of `serializeEff` (Model/ScopeEff.lean; C03_pure_sites / C03_pure_frame) against what to_proto
+    did to the real tensors: every logged effect is at a write site of the model (hypothesis of C03_pure_frame,
+    share published), replaying the log gives the heap the model's serializer returns, the tensor names of the
+    real model after to_proto are the ones after the replay, and a tensor that no effect names kept its name"""
+    if not out.get("eff_ok"):
+        part.disagree("extended model: serializeEff raises although serializeE returned", case, out.get("eff_ok"), True)
+        return
+    part.count(f"effects_at_sites={out.get('effects_at_sites')}")
+    part.count("effects_logged", len(out.get("effects", [])))
+    if out.get("effects_at_sites") is not True or out.get("replay_agrees") is not True:
+        part.disagree("model: C03_pure_sites contradicted by the driver", case,
+                      [out.get("effects_at_sites"), out.get("replay_agrees")], [True, True])
+        return
+    try:
+        after = sm.ir_graph_to_world_ext(model.graph, {})["world"]["tens"]
+    except Exception:  # noqa: BLE001
+        return
+    names_model = [t[0] for t in out.get("tens_after", [])]
+    names_real = [t[0] for t in after]
+    if names_real != names_model:
+        part.disagree("tensor names after to_proto differ from the replay of the model's effect log", case,
+                      names_model, names_real)
+        return
+    written = {e[1] for e in out["effects"]}
+    last = {}
+    for e in out["effects"]:
+        last[e[1]] = e[3]
+    for t, nm in last.items():
+        if t < len(names_real) and names_real[t] != nm:
+            part.disagree(f"tensor {t}: the last logged write assigns {nm!r}, the real tensor is named {names_real[t]!r}",
+                          case, nm, names_real[t])
+            return
+    part.count("effects_agree")
+    part.count("tensors_not_written", len(names_real) - len(written))
+
+
+def check_write_sites(ctx) -> None:
+    """the write sites of to_proto: every assignment / deletion / mutating call on an IR object in the functions
+    reachable from serde.py's serialize* entry points (AST of the imported module) against `writeSites` of
+    Model/ScopeEff.lean.  A site the model does not have is a broken correspondence (C03_pure_sites / C03_pure_frame
+    are about the model's list); a site of the model that the code no longer has is reported too."""
+    case = {"scan": "onnx_ir.serde serialize* write sites"}
+    try:
+        real = sm.serde_write_sites()
+    except Exception as e:  # noqa: BLE001
+        ctx.disagree(f"write-site scan of serde.py failed: {type(e).__name__}: {e!s:.120}", case, None, None)
+        return
+    out = lean_batch([{"m": "scope.sites"}])[0]
+    model_sites = sorted(tuple(x) for x in out.get("sites", []))
+    real_sites = sorted({tuple(k) for _, _, k in real})
+    ctx.count("write_sites_found_in_serde", len(real))
+    ctx.count("write_sites_of_model", len(model_sites))
+    ctx.exhaustive_scopes.append("every function reachable from serde.py's serialize*/to_proto entry points: all "
+                                 "assignments, deletions and mutating container calls on non-proto, non-local objects")
+    if real_sites != model_sites:
+        extra = [f"{f}: {t}" for f, t, k in real if tuple(k) not in model_sites]
+        gone = [list(k) for k in model_sites if k not in real_sites]
+        what = "to_proto write sites differ from Model/ScopeEff.lean"
+        if extra:
+            what += ": new write site " + "; ".join(extra)[:160]
+        if gone:
+            what += f": site of the model not found in serde.py {gone}"
+        ctx.disagree(what, dict(case, found=[[f, t] for f, t, _ in real]), [list(k) for k in model_sites],
+                     [list(k) for k in real_sites])
+    else:
+        ctx.count("write_sites_agree")
 
 
 def diff_case_model(part, out: dict, case, model, p1, err, m2) -> None:
@@ -1087,6 +1167,7 @@ def run(ctx: Ctx) -> None:
     )
     for obj in load_corpus("C03"):
         replay(ctx, obj)
+    check_write_sites(ctx)
     shards = 16
     n = ctx.pick(2400, 60000) // shards
     seeds = [ctx.rng.randrange(2**62) for _ in range(shards)]
